@@ -5,6 +5,7 @@ import (
 	"encoding/hex"
 	"encoding/json"
 	"fmt"
+	"github.com/golang/snappy"
 	"runtime"
 	"runtime/debug"
 	"strings"
@@ -14,6 +15,7 @@ import (
 	"github.com/emitter-io/emitter/internal/event"
 	"github.com/emitter-io/emitter/internal/message"
 	"github.com/emitter-io/emitter/verifsim/kernel"
+	"github.com/emitter-io/emitter/verifsim/model"
 	"github.com/emitter-io/emitter/verifsim/mqttc"
 	"github.com/emitter-io/emitter/verifsim/world"
 )
@@ -26,9 +28,9 @@ import (
 func init() {
 	kernel.Register(&kernel.World{
 		Property: "C09", Bubble: true, Run: runC09, RunsPerProc: 60, RunTimeout: 120 * time.Second, HangIsViolation: true,
-		Rule: "one run = one real broker (message size limit 1 KiB .. 64 KiB by tape, in-memory store, cluster configured) with a canary client; each step is one attack: random bytes; valid CONNECT / SUBSCRIBE / UNSUBSCRIBE / PUBLISH packets truncated at any offset, with flipped bytes, inflated or zero remaining-length and string-length fields; well-formed requests with extreme last / ttl / from / until options, JSON numbers and topic counts; a PUBLISH larger than the configured size; random, truncated, bit-flipped and count-inflated payloads handed to the gossip entry points (OnGossip, OnGossipBroadcast, OnGossipUnicast) as a byzantine peer would. After every step: the process is alive and the step quiesced (a dead or hung worker is re-run alone by the driver and reported), a panic on a gossip goroutine counts as process exit, bytes allocated by the step stay below max(64 MiB, 1024 x bytes injected), the canary's publish comes back to it, nothing of an oversize packet is delivered. non-trivial = >= 10 attack steps survived with the canary served; distinct = distinct canonical logs",
-		Real:  []string{"mqtt.DecodePacket and every packet decoder", "broker.Conn (Process, recover in Close)", "security.ParseChannel options", "pubsub / history / keygen request handlers", "storage lookup sizing", "event.DecodeState, crdt codecs, message.DecodeFrame, survey", "cluster.Swarm gossip callbacks"},
-		Stub:  []string{"client sockets (simnet)", "the byzantine peer = direct calls of the Gossiper callbacks", "clock (synctest)", "memory ceiling = allocation accounting per step (runtime.MemStats)"},
+		Rule:        "one run = one real broker (message size limit 1 KiB .. 64 KiB by tape, in-memory store, cluster configured) with a canary client; each step is one attack: random bytes; valid CONNECT / SUBSCRIBE / UNSUBSCRIBE / PUBLISH packets truncated at any offset, with flipped bytes, inflated or zero remaining-length and string-length fields; well-formed requests with extreme last / ttl / from / until options, JSON numbers and topic counts; a PUBLISH larger than the configured size; random, truncated, bit-flipped and count-inflated payloads handed to the gossip entry points (OnGossip, OnGossipBroadcast, OnGossipUnicast) as a byzantine peer would. After every step: the process is alive and the step quiesced (a dead or hung worker is re-run alone by the driver and reported), a panic on a gossip goroutine counts as process exit, bytes allocated by the step stay below max(64 MiB, 1024 x bytes injected), the canary's publish comes back to it, nothing of an oversize packet is delivered. non-trivial = >= 10 attack steps survived with the canary served; distinct = distinct canonical logs",
+		Real:        []string{"mqtt.DecodePacket and every packet decoder", "broker.Conn (Process, recover in Close)", "security.ParseChannel options", "pubsub / history / keygen request handlers", "storage lookup sizing", "event.DecodeState, crdt codecs, message.DecodeFrame, survey", "cluster.Swarm gossip callbacks"},
+		Stub:        []string{"client sockets (simnet)", "the byzantine peer = direct calls of the Gossiper callbacks", "clock (synctest)", "memory ceiling = allocation accounting per step (runtime.MemStats)"},
 		Assumptions: []string{"allocation is measured per step with TotalAlloc; a leak spread thinly over many steps is not seen", "TLS, HTTP contract/metering providers and OS-level resource limits are outside the simulation"},
 	})
 }
@@ -135,7 +137,56 @@ func runC09(c *kernel.Ctx) {
 			}()
 			f()
 		}
-		switch k := t.Choose(14); k {
+		switch k := t.Choose(16); k {
+		case 14, 15: // frames built on purpose: what a hostile (or merely unusual) peer can put on the cluster port
+			var buf []byte
+			fixID := func(m *message.Message) *message.Message { // time, sequence and process nonce of the id: fixed, so that the bytes replay
+				copy(m.ID[4:16], []byte{0xef, 0x95, 0x75, 0xe7, 0xff, 0xff, 0xff, 0xfe, 0xdf, 0x65, 0xeb, 0xa3})
+				return m
+			}
+			switch t.Choose(4) {
+			case 0: // a message for a channel with a local subscriber whose re-encoded PUBLISH is just around 64 KiB
+				total := 65500 + t.Choose(60)
+				ssid := message.Ssid(model.Ssid(lic.Contract, []string{"canary"}))
+				m := fixID(message.New(ssid, []byte("canary/"), bytes.Repeat([]byte{'z'}, total-2-len("canary/"))))
+				f := message.Frame{*m}
+				buf = f.Encode()
+				what = fmt.Sprintf("crafted-frame big-message publish-length=%d", min(max(total, 65529), 65537))
+			case 1: // a length prefix of 2^63 or more somewhere in the frame body
+				body, err := snappy.Decode(nil, validFrame)
+				if err != nil {
+					c.Harnessf("snappy: %v", err)
+				}
+				at := t.Choose(len(body)) // 0: the number of messages of the frame
+				huge := [][]byte{
+					{0xff, 0xff, 0xff, 0xff, 0xff, 0xff, 0xff, 0xff, 0xff, 0x01}, // 2^64-1
+					{0x80, 0x80, 0x80, 0x80, 0x80, 0x80, 0x80, 0x80, 0x80, 0x01}, // 2^63
+					{0x80, 0x80, 0x80, 0x08},                                     // 2^24
+					{0xff, 0xff, 0xff, 0xff, 0x07},                               // 2^31-1
+				}[t.Choose(4)]
+				mut := append(append(append([]byte(nil), body[:at]...), huge...), body[at:]...)
+				if t.Chance(1, 2) && at+1 <= len(body) {
+					mut = append(append(append([]byte(nil), body[:at]...), huge...), body[at+1:]...) // replace instead of insert
+				}
+				buf = snappy.Encode(nil, mut)
+				what = "crafted-frame huge-length"
+				if at == 0 {
+					what = "crafted-frame huge-count"
+				}
+			case 2: // a survey request whose channel lacks the reply address
+				ch := []string{"ssdstore", "presence", "x/notanumber", "", "/"}[t.Choose(5)]
+				m := fixID(message.New(message.Ssid{0, 3939663052, uint32(t.Choose(5))}, []byte(ch), []byte("{}")))
+				f := message.Frame{*m}
+				buf = f.Encode()
+				what = "crafted-frame survey-request"
+			default: // a survey response nobody asked for
+				m := fixID(message.New(message.Ssid{0, 3939663052, uint32(t.Choose(5))}, []byte("response"), []byte("zz")))
+				f := message.Frame{*m}
+				buf = f.Encode()
+				what = "crafted-frame survey-response"
+			}
+			gossip("OnGossipUnicast", func() { sw.OnGossipUnicast(2, buf) })
+			injected = len(buf)
 		case 12: // every packet type (also the ones a client never sends) with a tape-chosen body
 			a := attacker()
 			typ := byte(t.Range(1, 15))
@@ -270,7 +321,7 @@ func runC09(c *kernel.Ctx) {
 			}
 			gossip("OnGossip", func() { sw.OnGossip(buf) })
 			gossip("OnGossipUnicast", func() { sw.OnGossipUnicast(3, buf) })
-			injected, what = 2 * n, "random-gossip"
+			injected, what = 2*n, "random-gossip"
 		}
 		world.Settle()
 		world.Advance(c, 2100*time.Millisecond) // survey timeouts of history/presence requests
